@@ -11,8 +11,8 @@ import numpy
 from .. import tree  # noqa: F401
 import numpoly
 
-from ..alpha import alpha, build_checked, model_of, spec, wellformed
-from ..model import V, exact_array, ONE
+from ..alpha import alpha, build_checked, model_of, spec, spec_of_model, wellformed
+from ..model import V, exact_array, ONE, name_index
 from .. import space
 
 ID = "C09"
@@ -312,6 +312,10 @@ def cases(tier, seed):
                 continue
             out.append({"k": "unary", "s": list(shape), "v": var})
             out.append({"k": "index", "s": list(shape), "v": var})
+    # many elements along an axis (blocked / chunked code paths leave remainders there)
+    for shape in [(67,), (2, 65), (66, 1)]:
+        out.append({"k": "unary", "s": list(shape), "v": "canon"})
+        out.append({"k": "index", "s": list(shape), "v": "rev"})
     for shape in SHAPES:
         out.append({"k": "multi", "s": list(shape)})
     for shape in [(2,), (1, 3), (2, 2), (2, 1, 3)]:
@@ -428,6 +432,19 @@ def run_multi(case, R):
                 judge_call(R, f"{label} of {[tuple(s['n']) for s in sps]} shape {shape}", fname, spelling,
                            lambda: g(getf(mod, fname), ps), lambda: vmap_multi(lambda cs: g(getf(numpy, fname), cs), ms),
                            tg, allnames, "i8", None, allow_superset=True)
+        # the sequence of operands in other containers: a tuple, and one polynomial array whose leading axis enumerates them
+        stacked_m = vmap_multi(lambda cs: numpy.stack(cs, axis=0), ms)
+        stacked_p = build_checked(spec_of_model(stacked_m, names=sorted(stacked_m.names(), key=name_index) or ["q0"]))
+        for label, fname, g in joins:
+            if fname in ("broadcast_arrays", "atleast_2d"):
+                continue
+            for spelling, mod in (("numpoly", numpoly), ("numpy", numpy)):
+                judge_call(R, f"{label} of a tuple {[tuple(s['n']) for s in sps]} shape {shape}", fname, spelling,
+                           lambda: g(getf(mod, fname), tuple(ps)), lambda: vmap_multi(lambda cs: g(getf(numpy, fname), cs), ms),
+                           tg + ["container=tuple"], allnames, "i8", None, allow_superset=True)
+                judge_call(R, f"{label} of one array {stacked_p.shape} {[tuple(s['n']) for s in sps]}", fname, spelling,
+                           lambda: g(getf(mod, fname), stacked_p), lambda: stacked_m.map(lambda c: g(getf(numpy, fname), c)),
+                           tg + ["container=ndpoly"], allnames, "i8", None, allow_superset=True)
         # broadcast_arrays with genuinely different shapes
         if nd >= 1:
             small = tagged(shape[-1:], 30, ("q0", "q2"))
